@@ -276,8 +276,11 @@ class C15(Check):
                         hist.append(('corpus', G.from_json(h)))
         for h in G.boundary_histories():
             hist.append(('boundary', h))
-        self.run_histories(ctx, c, hist, rng, generate=ctx.n(700, 30000))
+        self.run_histories(ctx, c, hist, rng, generate=ctx.n(2000, 25000))
         self.corr_detached(ctx, c, rng)
+        # report the smallest failing history first
+        ctx.violations.sort(key=lambda v: len(json.dumps(v['witness'], default=repr)))
+        ctx.disagreements.sort(key=lambda d: len(json.dumps(d['input'], default=repr)))
 
     # -- histories: the ops of a history are chosen while the implementation runs (indices refer to its state)
     def run_histories(self, ctx, c, fixed, rng, generate):
@@ -371,6 +374,19 @@ class C15(Check):
                             {'before': pre_items, 'after': items}))
         if outcome.startswith('err') and op[0] != 'parse' and post != pre:
             bad.append(('a rejected operation leaves mapping, rules and selectors unchanged', {'pre': pre, 'post': post}))
+        # what an accepted call must have achieved (read off the mapping / the rule list, not the model)
+        if outcome.startswith('ok'):
+            if op[0] == 'setns' and mapping.get(op[1]) != op[2]:
+                bad.append(("after sheet.namespaces[p] = u the mapping binds p to u", {'p': op[1], 'u': op[2], 'mapping': mapping}))
+            if op[0] == 'delns' and (op[1] in mapping or len(pairs) != len(pre_ns) - 1):
+                bad.append(("after del sheet.namespaces[p] the prefix is gone and exactly one @namespace rule less",
+                            {'p': op[1], 'mapping': mapping, 'rules_before': [x[1:3] for x in pre_ns], 'rules': pairs}))
+            if op[0] in ('insns', 'insnstext') and outcome != 'ok:n' and (op[1], op[2]) not in pairs:
+                bad.append(("an @namespace rule that insertRule reports as inserted is in the rule list",
+                            {'rule': [op[1], op[2]], 'rules': pairs}))
+            rpre = split_state(pre)['R']
+            if op[0] == 'delrule' and len(sheet.cssRules) != (0 if rpre == '_' else rpre.count(';') + 1) - 1:
+                bad.append(("deleteRule removes exactly one rule", {'pre': pre, 'post': post}))
         if op[0] in ('setsel', 'insstyle'):
             und = [p for p in G.named_prefixes(op) if p not in pre_map]
             if und and not outcome.startswith('err'):
